@@ -499,10 +499,17 @@ func c17Shape(p *Prog, r *Report, c *rollCtr) {
 				continue
 			}
 			name := "phi#" + ph.Name() + "@" + fn.Name()
+			// the index used in an iteration: the phi itself (`for i := 0; ...`, init 0) or phi+1 (the rotated
+			// form go/ssa gives `for i := range s`, init -1)
+			idx := rfAtom(name)
+			if init == -1 {
+				idx = idx.Add(rfConst(newRat(1)), 1)
+				init = 0
+			}
 			// bound: i < len(values)
 			bound := false
 			for _, ifi := range ifs(fn) {
-				if cmp, ok := CanonCmp(BuildExpr(p, ifi.Cond, nil)); ok && cmp.Equal(ParseLin("len("+V+") - "+name, ">")) {
+				if cmp, ok := CanonCmp(BuildExpr(p, ifi.Cond, nil)); ok && (cmp.Op == ">" && cmp.D.Equal(rfAtom("len("+V+")").Add(idx, -1))) {
 					bound = true
 				}
 			}
@@ -512,7 +519,7 @@ func c17Shape(p *Prog, r *Report, c *rollCtr) {
 				for _, in2 := range b2.Instrs {
 					if call, ok := in2.(*ssa.Call); ok && isStdCall(call, "time", "Time.Add") {
 						rf := ToRat(BuildExpr(p, call, nil))
-						want := rfAtom("now").Add(rfAtom(name).Mul(rfAtom(R)), -1)
+						want := rfAtom("now").Add(idx.Mul(rfAtom(R)), -1)
 						if rf.Equal(want) {
 							form = true
 						}
